@@ -59,6 +59,7 @@ type knownFinding struct {
 }
 
 type runner struct {
+	abort     func()
 	prop      string
 	tier      string
 	seed      uint64
